@@ -98,6 +98,11 @@ def check(run, project):
     y2(run, lg)
     from .shared import discarded_generators
     discarded_generators(run, project, "Y7")
+    # Y8 (= C15-F1): warn mode has to be reachable through every front-end - the mode flag (and every other option) is
+    # handed on unchanged, with the decoder's own default
+    from ..report import RuleView
+    from . import c15
+    c15.f1_f2(RuleView(run, "F1", "Y8"), project)
     y4(run, lg)
     y5(run, lg)
     run.floor("Y1", 70, "failure sites")
